@@ -2,15 +2,20 @@ package main
 
 import (
 	"bytes"
+	"crypto/aes"
 	"encoding/json"
 	"fmt"
+	"io"
 	"sync"
 
 	"github.com/Tnze/go-mc/chat"
 	"github.com/Tnze/go-mc/level"
 	"github.com/Tnze/go-mc/nbt"
+	"github.com/Tnze/go-mc/net/CFB8"
 	pk "github.com/Tnze/go-mc/net/packet"
 	"github.com/Tnze/go-mc/offline"
+	"github.com/Tnze/go-mc/save"
+	"github.com/Tnze/go-mc/save/region"
 
 	"verif/vm"
 )
@@ -91,6 +96,69 @@ func indepJobs() []indepJob {
 			}
 			return fmt.Sprintf("%x %v %d", vm.Hash64(buf.Bytes()), err, sum)
 		}},
+		{"chunk of one's own to the save form, to the wire and back", func(seed uint64) string {
+			r := vm.NewRand(seed)
+			ch := level.EmptyChunk(2)
+			for i := 0; i < 300; i++ {
+				ch.Sections[r.Intn(2)].SetBlock(r.Intn(4096), level.BlocksState(r.Intn(40)))
+			}
+			var s save.Chunk
+			if err := level.ChunkToSave(ch, &s); err != nil {
+				return "tosave:" + err.Error()
+			}
+			back, err := level.ChunkFromSave(&s)
+			if err != nil {
+				return "fromsave:" + err.Error()
+			}
+			var buf bytes.Buffer
+			_, _ = back.WriteTo(&buf)
+			names := ""
+			for _, p := range s.Sections[0].BlockStates.Palette {
+				names += p.Name + string(p.Properties.Data) + ";"
+			}
+			return fmt.Sprintf("%x %x", vm.Hash64(buf.Bytes()), vm.Hash64([]byte(names)))
+		}},
+		{"region file of one's own", func(seed uint64) string {
+			r := vm.NewRand(seed)
+			f := &memFile{}
+			reg, err := region.CreateWriter(f)
+			if err != nil {
+				return "create:" + err.Error()
+			}
+			sum := uint64(0)
+			for i := 0; i < 12; i++ {
+				x, z := r.Intn(4), r.Intn(4)
+				data := r.Bytes(r.Range(1, 9000))
+				if err := reg.WriteSector(x, z, data); err != nil {
+					return "write:" + err.Error()
+				}
+				got, err := reg.ReadSector(x, z)
+				if err != nil || !bytes.Equal(got, data) {
+					return fmt.Sprint("read differs ", err)
+				}
+				sum = sum*31 + vm.Hash64(got)
+			}
+			// timestamps are clock values: leave the second header sector out of the fingerprint
+			return fmt.Sprintf("%x %x %d", sum, vm.Hash64(f.b[:4096]), len(f.b))
+		}},
+		{"CFB8 streams of one's own", func(seed uint64) string {
+			r := vm.NewRand(seed)
+			key := r.Bytes(16)
+			blk, _ := aes.NewCipher(key)
+			enc := CFB8.NewCFB8Encrypt(blk, key)
+			blk2, _ := aes.NewCipher(key)
+			dec := CFB8.NewCFB8Decrypt(blk2, key)
+			out := ""
+			for i := 0; i < 6; i++ {
+				msg := r.Bytes(r.Range(1, 200))
+				ct := make([]byte, len(msg))
+				enc.XORKeyStream(ct, msg)
+				pt := make([]byte, len(ct))
+				dec.XORKeyStream(pt, ct)
+				out += fmt.Sprintf("%x:%v;", vm.Hash64(ct), bytes.Equal(pt, msg))
+			}
+			return out
+		}},
 		{"VarInt / VarLong / fields into one's own buffer", func(seed uint64) string {
 			r := vm.NewRand(seed)
 			var buf bytes.Buffer
@@ -116,6 +184,41 @@ func indepJobs() []indepJob {
 			return fmt.Sprintf("%x %d", vm.Hash64(buf.Bytes()), sum)
 		}},
 	}
+}
+
+// memFile is a minimal in-memory io.ReadWriteSeeker.
+type memFile struct {
+	b   []byte
+	pos int64
+}
+
+func (m *memFile) Read(p []byte) (int, error) {
+	if m.pos >= int64(len(m.b)) {
+		return 0, io.EOF
+	}
+	n := copy(p, m.b[m.pos:])
+	m.pos += int64(n)
+	return n, nil
+}
+
+func (m *memFile) Write(p []byte) (int, error) {
+	if end := m.pos + int64(len(p)); end > int64(len(m.b)) {
+		m.b = append(m.b, make([]byte, end-int64(len(m.b)))...)
+	}
+	copy(m.b[m.pos:], p)
+	m.pos += int64(len(p))
+	return len(p), nil
+}
+
+func (m *memFile) Seek(off int64, whence int) (int64, error) {
+	switch whence {
+	case io.SeekCurrent:
+		off += m.pos
+	case io.SeekEnd:
+		off += int64(len(m.b))
+	}
+	m.pos = off
+	return off, nil
 }
 
 func independent(c *vm.Ctx, r *vm.Rand, G, rounds int) {
